@@ -517,7 +517,7 @@ SnapViol(s, R) ==
     \cup (IF Established(s) /\ s.arwnd # MaxI(0, Cfg(e).buf - specHeld) THEN {V("C11_ArwndNow", <<e, s.arwnd, Cfg(e).buf, specHeld>>)} ELSE {})
     \* C07: the receiver's next-expected cursor is where the specification says (forward-TSN skips)
     \cup {V("C07_Cursor", <<e, x.sid, IF Get(R, <<e, x.sid>>, ReasmInit).il THEN x.rmid ELSE x.rssn, Get(R, <<e, x.sid>>, ReasmInit).next>>) :
-             x \in {y \in regStrs : <<e, y.sid>> \in DOMAIN R /\ (IF R[<<e, y.sid>>].il THEN y.rmid ELSE y.rssn) # R[<<e, y.sid>>].next % 65536}}
+             x \in {y \in regStrs : <<e, y.sid>> \in DOMAIN R /\ (IF R[<<e, y.sid>>].il THEN y.rmid ELSE y.rssn) # R[<<e, y.sid>>].next}}
     \* C15: per-stream buffered amount = accepted writes - bytes acknowledged (or skipped and acknowledged)
     \cup {V("C15_StreamExact", <<e, x.sid, x.ba, WrittenBytes(e, x.sid), ReleasedBytes(e, x.sid)>>) :
              x \in {y \in strs : y.known /\ y.ba # WrittenBytes(e, y.sid) - ReleasedBytes(e, y.sid)}}
